@@ -16,13 +16,14 @@ func C12(r *core.Run) {
 	r.Explanation = "Accounting and wiring rules of the aws-chunked decoder, on all paths (not the hex/CRLF grammar itself): " +
 		"(R12.1) every update of chunkRemain, of the returned count and of the remaining request size moves by exactly the byte count the transport delivered in that step (result 0 of the inner Read performed in the same block), chunkRemain is otherwise only set from the parsed chunk header, and the slice handed to the transport starts at the bytes delivered so far and is bounded by the smaller of what is asked and what the chunk still holds; " +
 		"(R12.2) every error of the transport and of the framing reads is returned; (R12.3) the decoder is selected by the x-amz-content-sha256 streaming constant, wraps r.Body, feeds the hashing reader, and the declared decoded length is parsed, checked and passed as size; " +
-		"(R08.3) every backend enforces that size — the fs backends do not (known findings F15); (R09.1a) a hostile declared length cannot drive an allocation."
+		"(R08.3) every backend enforces that size — the fs backends do not (known findings F15); (R09.1a) a hostile declared length cannot drive an allocation. (R08.6) ReadAll always drives the decoder to the end of the stream: a declared decoded length of 0 cannot skip the framing and trailing-bytes checks."
 	r.NotDecided = "correctness of the hex/CRLF/signature grammar handling (fixed-width skips), data-with-EOF readers, final zero-chunk handling, payload byte equality"
 	ctx := oblig.NewCtx(r.P)
 	rule121(r, ctx)
 	rule122(r)
 	rule123(r, ctx)
 	rule083(r, ctx)
+	rule086(r)
 	reach := reachableFrom(r, handlerRoots(r))
 	rule091alloc(r, ctx, reach)
 	// the decoder's own bounds sites
